@@ -499,19 +499,32 @@ func toFloatPair(x, y any) (float64, float64, bool) {
 	}
 }
 
+func decimalToInt(d decimal128.Decimal) (int, bool) {
+	if d.IsNaN() || d.IsInf(0) {
+		return 0, false
+	}
+
+	if !d.Equal(decimal128.Trunc(d)) {
+		return 0, false
+	}
+
+	i, ok := d.Int64()
+	if !ok {
+		return 0, false
+	}
+
+	if i > math.MaxInt || i < math.MinInt {
+		return 0, false
+	}
+
+	return int(i), true
+}
+
 func toInt(v any) (int, bool, bool) {
 	switch v := v.(type) {
 	case decimal128.Decimal:
-		i, ok := v.Int64()
-		if !ok {
-			return 0, true, false
-		}
-
-		if i > math.MaxInt || i < math.MinInt {
-			return 0, true, false
-		}
-
-		return int(i), true, true
+		i, ok := decimalToInt(v)
+		return i, true, ok
 	case json.Number:
 		i, err := v.Int64()
 		if err != nil {
